@@ -109,7 +109,7 @@ def programs_for(name, p, env, rng, tier):
     ops = SE.all_ops()
     from .sweep import apply_op
 
-    per_op = 2 if tier == "quick" else 6
+    per_op = 1 if tier == "quick" else 6
     for opname in LAYOUT_OPS:
         if opname not in ops:
             continue
